@@ -10,6 +10,7 @@
     c02.obj <kind> <obj>    GetHash() of an object of any serialisable class          → hex
     c02.objpair <kind> <a> <b>   a == b (by serialisation), GetHash of both       → <0|1>:<hashA>:<hashB>
       kind ∈ outpoint (hash,n) | txin | txout | swit | inwit (stack) | wit | tx | hdr | blk
+    c02.hist.tx / c02.hist.blk <obj> <obsA> <obsB>   two observers on ONE object (see Driver/C01.lean) → <ansA>|<ansB>
     c02.objcross <kindA> <a> <kindB> <b>   a == b for objects of any two classes (NotImplemented → False)  → 1 | 0
     c02.pyhash <kind> <obj>   Model.objPyHashWith (for tx also Model.pyHashWith) run with the injective
                               stand-in `pyHash bs = leNat (bs ++ [1])`; the harness decodes the byte string
@@ -17,6 +18,7 @@
 -/
 import Driver.Util
 import Driver.TxFmt
+import Driver.C01
 import BtcVerif.Model.Ident
 import BtcVerif.Spec.Ident
 
@@ -103,6 +105,8 @@ def handle (op : String) (args : List String) : Option String :=
   | "c02.pyhash", [k, a] => some <| match parseObj? k a with
       | some o => Res.render (pyHashOp o)
       | none => badArgs
+  | "c02.hist.tx", [t, a, b] => some (Driver.C01.histOp Driver.C01.obsTx (parseTx? t) a b)
+  | "c02.hist.blk", [blk, a, b] => some (Driver.C01.histOp Driver.C01.obsBlk (parseBlock? blk) a b)
   | "c02.eq", [a, b] => some <| match parseTx? a, parseTx? b with
       | some a, some b =>
           Res.render ((pyEq ⟨.immutable, a⟩ ⟨.mutable, b⟩).map fun r => if r then "1" else "0")
